@@ -18,6 +18,8 @@ impl<'a> StatementEvaluator<'a> {
     }
 
     pub fn evaluate_statement(&mut self) -> Result<(), TracedInterpreterError> {
+        #[cfg(feature = "verif-hooks")]
+        crate::verif::count_statement();
         if self.interpreter.enable_tracing {
             if let Some(line_number) = self.program().get_line_number() {
                 self.interpreter
@@ -70,6 +72,8 @@ impl<'a> StatementEvaluator<'a> {
     }
 
     fn evaluate_if_statement(&mut self) -> Result<(), TracedInterpreterError> {
+        #[cfg(feature = "verif-hooks")]
+        crate::verif::count_if();
         let conditional_value = self.evaluate_expression()?;
 
         // TODO: Dartmouth and Applesoft BASIC both support `IF X GOTO`,
